@@ -277,6 +277,8 @@ func observe(cfg *httputils.RetryPolicyConfiguration, min, max time.Duration, n 
 		}
 		ev.RaRep = want.Cmp(maxDur) <= 0
 		ev.CRA = cmpBig(wb, want)
+	case "datefar":
+		ev.RaRep = false // further away than a duration can express: only the sign of the wait is judged
 	case "datepast":
 		ev.CRA = cmpBig(wb, big.NewInt(0))
 	case "datefuture":
@@ -310,6 +312,9 @@ func materialiseHeader(hclass string, rng *rand.Rand) (value string, has bool, u
 		return v[rng.Intn(len(v))], true, 0
 	case "datepast":
 		return time.Now().Add(-time.Duration(1+rng.Intn(100000)) * time.Second).UTC().Format(http.TimeFormat), true, 0
+	case "datefar":
+		y := []int{2300, 2400, 2500, 3000, 9999}[rng.Intn(5)]
+		return time.Date(y, time.Month(1+rng.Intn(12)), 1+rng.Intn(28), rng.Intn(24), 0, 0, 0, time.UTC).Format(http.TimeFormat), true, 0
 	case "datefuture":
 		until = time.Duration(10+rng.Intn(100000)) * time.Second
 		return time.Now().Add(until).UTC().Format(http.TimeFormat), true, until
@@ -381,7 +386,7 @@ func record(a *hk.Args) error {
 	if n == 0 {
 		n = 300
 	}
-	hclasses := []string{"absent", "negative", "zero", "small", "huge", "datepast", "datefuture", "garbage", "empty"}
+	hclasses := []string{"absent", "negative", "zero", "small", "huge", "datepast", "datefuture", "datefar", "garbage", "empty"}
 	wclasses := []string{"zero", "equal", "ms", "hours", "minzero"}
 	for t := 0; t < n; t++ {
 		cfg := &httputils.RetryPolicyConfiguration{Enabled: rng.Intn(4) != 0, BackOffEnabled: rng.Intn(3) != 0, LinearBackOffEnabled: rng.Intn(2) == 0,
